@@ -571,9 +571,15 @@ where
                 );
             }
 
-            let permitted = {
+            let (permitted, trial) = {
                 let mut circuit = circuit.lock().await;
-                circuit.try_acquire(&config)
+                let permitted = circuit.try_acquire(&config);
+                let trial = if permitted {
+                    circuit.trial_guard()
+                } else {
+                    None
+                };
+                (permitted, trial)
             };
 
             #[cfg(feature = "tracing")]
@@ -610,6 +616,9 @@ where
                 circuit.record_failure(&config, duration);
             } else {
                 circuit.record_success(&config, duration);
+            }
+            if let Some(trial) = trial {
+                trial.disarm();
             }
 
             result.map_err(CircuitBreakerError::Inner)
@@ -741,9 +750,15 @@ where
                 );
             }
 
-            let permitted = {
+            let (permitted, trial) = {
                 let mut circuit = circuit.lock().await;
-                circuit.try_acquire(&config)
+                let permitted = circuit.try_acquire(&config);
+                let trial = if permitted {
+                    circuit.trial_guard()
+                } else {
+                    None
+                };
+                (permitted, trial)
             };
 
             #[cfg(feature = "tracing")]
@@ -786,6 +801,9 @@ where
                 circuit.record_failure(&config, duration);
             } else {
                 circuit.record_success(&config, duration);
+            }
+            if let Some(trial) = trial {
+                trial.disarm();
             }
 
             result.map_err(CircuitBreakerError::Inner)
